@@ -2,8 +2,8 @@
    before.  Only statements, closed by [exact lemma], with Print Assumptions beneath. *)
 From Coq Require Import String List NArith Bool.
 From J5V.lib Require Import Outcome Strcase.
-From J5V.model Require Import J5sAst Desc J5sWalk J5sLink J5sConvert J5sContract J5sValid J5sEdit J5sCorr.
-From J5V.proofs Require Import J5sProofs J5sContractProofs J5sEditProofs J5sExtProofs J5sExtBoolProofs J5sPkgExtProofs J5sC13Proofs J5sFullProofs J5sWitnessProofs.
+From J5V.model Require Import J5sAst Desc J5sWalk J5sLink J5sConvert J5sContract J5sValid J5sEdit J5sCorr J5sEntity J5sEntityEdit.
+From J5V.proofs Require Import J5sProofs J5sContractProofs J5sEditProofs J5sExtProofs J5sExtBoolProofs J5sPkgExtProofs J5sC13Proofs J5sFullProofs J5sWitnessProofs J5sEntityExtProofs.
 Import ListNotations.
 Local Open Scope N_scope.
 
@@ -258,6 +258,97 @@ Theorem C13_fixed_append_keeps_existing :
                first_field_tname D = abs_name (b "foo.v1") [b "Foo"; b "X"].
 Proof. exact append_keeps_existing. Qed.
 Print Assumptions C13_fixed_append_keeps_existing.
+
+(* ---- C13 over source files that declare ENTITIES (J5sEntity: sourcewalk/entity.go expands an
+   entity into Keys / Data / Status enum / State / EventType oneof with nested event objects /
+   Event / Query service / Publish topic and hands them to the same visitors).  Edits
+   (J5sEntityEdit.eedit): a key, a data field, a status, an event appended to an entity; a field
+   appended to an existing event; a declaration or a NEW ENTITY appended to a file; any C13 edit
+   of a plain declaration in such a file. *)
+
+(* one action on an entity extends every one of the eight generated declarations in the sense of
+   the source relation of C13_full (element_ext), provided an appended key is not a URL key *)
+Theorem C13_entity_action_extends : forall pkg a e, action_ok a ->
+  Forall2 element_ext (expand_entity pkg e) (expand_entity pkg (ent_apply a e)).
+Proof. exact ent_apply_ext. Qed.
+Print Assumptions C13_entity_action_extends.
+
+(* C13 for any two valid bundles related file by file by the source extension (the form the
+   entity theorem - and C13_full - instantiate) *)
+Theorem C13_extended_bundles_embed : forall bd bd' pkg,
+  valid bd = true -> valid bd' = true -> Forall2 bfile_ext bd bd' ->
+  (exists x, In x bd /\ bfile_pkg x = pkg) ->
+  exists D D', compile bd pkg = Ok D /\ compile bd' pkg = Ok D' /\ files_ext D D'.
+Proof. exact c13_bext. Qed.
+Print Assumptions C13_extended_bundles_embed.
+
+(* ANY history of entity edits that appends no URL key (a key-typed key that is primary or
+   shard), first and last version valid: both compile and everything generated earlier - Keys,
+   Data, State, Event messages, the status enum, the event oneof and its nested event objects,
+   the Query service with its methods, requests, responses and HTTP rules, the Publish topic -
+   embeds unchanged (files_ext: names, field numbers, types, type names, enum values) *)
+Theorem C13_entity_histories : C13_entity_statement.
+Proof. exact c13_entity_histories. Qed.
+Print Assumptions C13_entity_histories.
+
+(* the list-annotations import that entity files get outside the syntax keeps the embedding *)
+Theorem C13_entity_imports_keep_embedding : forall ents D D',
+  files_ext D D' -> files_ext (with_entity_imports ents D) (with_entity_imports ents D').
+Proof. exact with_entity_imports_ext. Qed.
+Print Assumptions C13_entity_imports_keep_embedding.
+
+(* non-vacuity: the README entity + eight edits of every kind (a non-URL key, data field, status,
+   event, event field, declaration, second entity, field of the declaration) *)
+Theorem C13_entity_history_example :
+  forallb eedit_ok w_ent_edits = true /\
+  valid (expand_bundle w_ent) = true /\ valid (expand_bundle (apply_eedits w_ent w_ent_edits)) = true /\
+  (exists x, In x (expand_bundle w_ent) /\ bfile_pkg x = b "foo.v1") /\
+  (exists D D', compile (expand_bundle w_ent) (b "foo.v1") = Ok D /\
+                compile (expand_bundle (apply_eedits w_ent w_ent_edits)) (b "foo.v1") = Ok D' /\
+                files_ext_b D D' = true /\
+                msg_field_nums D (b "FooKeys") (b "foo_id") = [1] /\
+                msg_field_nums D' (b "FooKeys") (b "region") = [2] /\
+                msg_field_nums D' (b "FooEventsRequest") (b "page") = [2]).
+Proof. exact entity_history_example. Qed.
+Print Assumptions C13_entity_history_example.
+
+(* OBSERVATION about an edit OUTSIDE the property's quantifier (C13 covers fields / options /
+   declarations appended to user-declared objects, oneofs, enums, services and topics; a primary /
+   shard key appended to an entity changes the resource path by its nature and is not among them):
+   acceptQuery puts the URL keys in front of `page` / `query` in <Name>ListRequest /
+   <Name>EventsRequest and mapProperties numbers by position (the ProtoField 100 / 101 written in
+   entity.go is ignored), so a second primary key appended to the README entity moves
+   FooEventsRequest.page from 2 to 3.  This is why C13_entity_histories carries [eedit_ok]. *)
+Theorem C13_entity_append_url_key_witness :
+  forallb eedit_ok w_url_edit = false /\
+  valid (expand_bundle w_ent) = true /\ valid (expand_bundle (apply_eedits w_ent w_url_edit)) = true /\
+  out_field_nums (compile (expand_bundle w_ent) (b "foo.v1")) (b "FooEventsRequest") (b "page") = [2] /\
+  out_field_nums (compile (expand_bundle (apply_eedits w_ent w_url_edit)) (b "foo.v1")) (b "FooEventsRequest") (b "page") = [3].
+Proof. exact entity_url_key_witness. Qed.
+Print Assumptions C13_entity_append_url_key_witness.
+
+(* ... so the entity theorem cannot be stated without [eedit_ok]: the statement that ALSO
+   quantifies over appended URL keys is false of the model (and of the compiler: corpus pair
+   `entity-append-primary-key` of the correspondence).  Not a refutation of property C13 - the
+   edit is outside its quantifier -, an observation that delimits C13_entity_histories. *)
+Theorem C13_entity_full_refuted : ~ C13_entity_full_statement.
+Proof. exact entity_full_refuted. Qed.
+Print Assumptions C13_entity_full_refuted.
+
+(* a message appended to a publish topic all of whose messages carry names of their own (not an
+   edit of J5sEdit.edit: the source relation keeps the number of messages of a topic): at the
+   converter (acceptTopic) the messages generated before are a prefix of the new ones and the
+   topic's service keeps its name, role and every earlier rpc (name, request message type) - rpc
+   and message names never depend on how many messages the topic has.  Tie: stream
+   topic-message-append of run_cmpa (CAppendPair), incl. the one-message topic `Orders`. *)
+Theorem C13_publish_topic_append_message_partial :
+  forall snake camel screaming ev tn topic_name rl virt l extra ms ss is ms' ss' is',
+  all_named l ->
+  accept_topic snake camel screaming ev tn topic_name rl virt l = Ok (ms, ss, is) ->
+  accept_topic snake camel screaming ev tn topic_name rl virt (l ++ extra) = Ok (ms', ss', is') ->
+  prefix_of ms ms' /\ Forall2 service_ext ss ss'.
+Proof. exact publish_append_messages. Qed.
+Print Assumptions C13_publish_topic_append_message_partial.
 
 (* non-vacuity: appending a field to a two-field object keeps fields 1 and 2 and adds number 3 *)
 Example C13_example :
